@@ -64,6 +64,11 @@ def showSub : Subtable → String
   | .gpos2_2 cov c1 c2 adjust =>
     s!"i:{",".intercalate (cov.map toString)}:{showClasses c1}:{showClasses c2}:" ++
       "!".intercalate (adjust.map fun row => "+".intercalate (row.map showPA))
+  | .gpos3_1 cov recs => "j:" ++ ",".intercalate ((cov.zip recs).map fun p =>
+      s!"{p.1}>{p.2.1}.{p.2.2.1}.{p.2.2.2.1}.{p.2.2.2.2}")
+  | .gpos4_1 marks bases =>
+    "k:" ++ ",".intercalate (marks.map fun r => s!"{r.1}>{r.2.1}.{r.2.2.1}.{r.2.2.2}") ++ ":" ++
+      ",".intercalate (bases.map fun r => s!"{r.1}>" ++ "+".intercalate (r.2.map fun a => s!"{a.1}.{a.2}"))
   | .gsub1_1 cov d => s!"a:{showL cov "."}:{d}"
   | .gsub1_2 cov subst => "b:" ++ ",".intercalate ((cov.zip subst).map fun p => s!"{p.1}>{p.2}")
   | .gsub2_1 cov repl => "c:" ++ ",".intercalate ((cov.zip repl).map fun p => s!"{p.1}>{showL p.2 "."}")
@@ -118,6 +123,24 @@ def readSub (s : String) : Option Subtable :=
   | ["g", body] => do
     let ps ← readPairs body readVR
     pure (.gpos1_2 (ps.map (·.1)) (ps.map (·.2)))
+  | ["j", body] => do
+    let ps ← readPairs body fun r =>
+      match r.splitOn "." with
+      | [a, b, c, d] => do pure ((← a.toInt?), (← b.toInt?), (← c.toInt?), (← d.toInt?))
+      | _ => none
+    pure (.gpos3_1 (ps.map (·.1)) (ps.map (·.2)))
+  | ["k", ms, bs] => do
+    let marks ← readPairs ms fun r =>
+      match r.splitOn "." with
+      | [c, x, y] => do pure ((← c.toNat?), (← x.toInt?), (← y.toInt?))
+      | _ => none
+    let bases ← readPairs bs fun r =>
+      if r.isEmpty then some [] else
+      (r.splitOn "+").mapM fun a =>
+        match a.splitOn "." with
+        | [x, y] => do pure ((← x.toInt?), (← y.toInt?))
+        | _ => none
+    pure (.gpos4_1 marks bases)
   | ["h", body] => do
     let ps ← if body.isEmpty then some [] else (body.splitOn ",").mapM readPairEntry
     pure (.gpos2_1 ps)
